@@ -152,6 +152,7 @@ func init() {
 	share("C14", "C14.12", "C05.20", "a version that was handed to groups and subscribers is never altered afterwards: a newer version is a new object")
 	share("C13", "C13.13", "C05.20", "what GET reports is what was stored: a stored alert is never changed in place")
 	share("C01", "C01.41", "C05.20", "the alert a group holds is the version the provider stored: nobody edits it in place")
+	share("C05", "C05.21", "C13.4", "a resolve that reaches the provider replaces the firing version it is merged with (the younger submission wins, also at equal timestamps)")
 	share("C05", "C05.19", "C01.2", "a dispatcher started by a reload is handed the whole store, resolved alerts included: the resolution of an alert that ended before the reload is still reported")
 	share("C04", "C04.19", "C10.15", "what the de-duplication compares against is what was logged: an entry is never changed in place")
 	share("C06", "C06.13", "C01.3", "every alert is routed")
@@ -181,7 +182,7 @@ func init() {
 	share("C18", "C18.8", "C01.5", "the store refuses inserts only when destroyed; limit refusals are separate")
 	share("C19", "C19.11", "C09.1", "duplicate deliveries of a silence change nothing: merge is last-writer-wins")
 	share("C19", "C19.12", "C10.1", "duplicate deliveries of a log entry change nothing: merge is last-writer-wins")
-	share("C20", "C20.12", "C08.1", "each integration's chain is wait, dedup, retry, set-notifies in this order")
+	share("C20", "C20.13", "C08.1", "each integration's chain is wait, dedup, retry, set-notifies in this order")
 	share("C13", "C13.11", "C01.5", "what the provider stores is what was put: the store refuses a write only when destroyed (or limited), never because of the alert's own timestamps")
 	share("C06", "C06.19", "C05.3", "a group disappears only when it is empty: the store is marked destroyed only if no alert is left after removing the notified resolved ones")
 }
